@@ -39,7 +39,7 @@ theorem maskFrom_nil (env : BeaconEnv) (t s i p : Nat) : maskFrom env t s [] i p
 theorem maskFrom_cons (env : BeaconEnv) (t s b : Nat) (r : Bytes) (i p : Nat) :
     maskFrom env t s (b :: r) i p =
       (b ^^^ (env.ks t s i).getD p 0) ::
-        (if p + 1 = 16 then maskFrom env t s r (i + 1) 0 else maskFrom env t s r i (p + 1)) := by
+        (if p + 1 = 16 then maskFrom env t s r ((i + 1) % 256) 0 else maskFrom env t s r i (p + 1)) := by
   simp only [maskFrom]
 
 theorem maskFrom_length (env : BeaconEnv) (t s : Nat) (d : Bytes) :
@@ -72,6 +72,84 @@ theorem maskFrom_wf (env : BeaconEnv) (h : EnvWF env) (t s : Nat) (d : Bytes) (h
     split
     · exact ih hd.2 _ _
     · exact ih hd.2 _ _
+
+/-! ## the wrapped block counter: closed form of the key stream
+
+  Since the fix of `mask_with_keystream` (`iter = iter.wrapping_add(1)`) the block counter of the model is a
+  `u8` that wraps: the byte at index `n` of the data is masked with byte `n % 16` of key stream block
+  `(n / 16) % 256`, whatever the length of the data. -/
+
+/-- the key stream byte applied to the data byte at index `n` -/
+def ksByte (env : BeaconEnv) (t s n : Nat) : Nat := (env.ks t s ((n / 16) % 256)).getD (n % 16) 0
+
+/-- xor of the data with the key stream bytes `n, n + 1, …` -/
+def xorStream (env : BeaconEnv) (t s : Nat) : Bytes → Nat → Bytes
+  | [], _ => []
+  | b :: r, n => (b ^^^ ksByte env t s n) :: xorStream env t s r (n + 1)
+
+theorem ksByte_block (env : BeaconEnv) (t s i p : Nat) (hp : p < 16) :
+    ksByte env t s (16 * i + p) = (env.ks t s (i % 256)).getD p 0 := by
+  unfold ksByte
+  rw [show (16 * i + p) / 16 = i by omega, show (16 * i + p) % 16 = p by omega]
+
+theorem ksByte_period (env : BeaconEnv) (t s n : Nat) : ksByte env t s (n + 4096) = ksByte env t s n := by
+  unfold ksByte
+  rw [show (n + 4096) / 16 % 256 = n / 16 % 256 by omega, show (n + 4096) % 16 = n % 16 by omega]
+
+theorem ksByte_period_mul (env : BeaconEnv) (t s n k : Nat) : ksByte env t s (n + 4096 * k) = ksByte env t s n := by
+  induction k with
+  | zero => rfl
+  | succ k ih => rw [show n + 4096 * (k + 1) = n + 4096 * k + 4096 by omega, ksByte_period, ih]
+
+/-- the loop of the code (block counter `iter`, position `pos` inside the block) is the xor with the key
+    stream from any index `n` that is congruent to `16 * iter + pos` modulo 4096 -/
+theorem maskFrom_eq_xorStream (env : BeaconEnv) (t s : Nat) (d : Bytes) :
+    ∀ i p n, i < 256 → p < 16 → n % 4096 = 16 * i + p → maskFrom env t s d i p = xorStream env t s d n := by
+  induction d with
+  | nil => intro i p n _ _ _; rw [maskFrom_nil]; rfl
+  | cons b r ih =>
+    intro i p n hi hp hn
+    rw [maskFrom_cons, xorStream]
+    have e1 : n / 16 % 256 = i := by omega
+    have e2 : n % 16 = p := by omega
+    congr 1
+    · unfold ksByte; rw [e1, e2]
+    · split
+      · exact ih _ 0 (n + 1) (Nat.mod_lt _ (by omega)) (by omega) (by omega)
+      · exact ih i (p + 1) (n + 1) hi (by omega) (by omega)
+
+theorem mask_eq_xorStream (env : BeaconEnv) (d : Bytes) (t s : Nat) : mask env d t s = xorStream env t s d 0 :=
+  maskFrom_eq_xorStream env t s d 0 0 0 (by omega) (by omega) rfl
+
+theorem xorStream_getElem? (env : BeaconEnv) (t s : Nat) (d : Bytes) :
+    ∀ n j, (xorStream env t s d n)[j]? = d[j]?.map (fun b => b ^^^ ksByte env t s (n + j)) := by
+  induction d with
+  | nil => intro n j; simp only [xorStream, List.getElem?_nil, Option.map_none]
+  | cons b r ih =>
+    intro n j
+    cases j with
+    | zero => simp only [xorStream, List.getElem?_cons_zero, Option.map_some, Nat.add_zero]
+    | succ j =>
+      simp only [xorStream, List.getElem?_cons_succ, ih]
+      rw [show n + 1 + j = n + (j + 1) by omega]
+
+theorem xorStream_append (env : BeaconEnv) (t s : Nat) (a b : Bytes) :
+    ∀ n, xorStream env t s (a ++ b) n = xorStream env t s a n ++ xorStream env t s b (n + a.length) := by
+  induction a with
+  | nil => intro n; rfl
+  | cons x r ih =>
+    intro n
+    simp only [List.cons_append, xorStream, ih, List.length_cons]
+    rw [show n + 1 + r.length = n + (r.length + 1) by omega]
+
+theorem xorStream_period (env : BeaconEnv) (t s : Nat) (d : Bytes) :
+    ∀ n k, xorStream env t s d (n + 4096 * k) = xorStream env t s d n := by
+  induction d with
+  | nil => intro n k; rfl
+  | cons b r ih =>
+    intro n k
+    simp only [xorStream, ksByte_period_mul]
+    rw [show n + 4096 * k + 1 = n + 1 + 4096 * k by omega, ih]
 
 /-! ## the seed byte -/
 
